@@ -165,7 +165,7 @@ def build_library(case):
     from qce_circuit.connectivity.intrf_channel_identifier import QubitIDObj
     d = case["d"]
     init = InitialStateContainer.from_ordered_list([InitialStateEnum.ZERO if i % 2 == 0 else InitialStateEnum.ONE for i in range(d)])
-    desc = RepetitionCodeDescription.from_initial_state(init)
+    desc = RepetitionCodeDescription.from_initial_state(init, qubit_refocusing=case.get("refocus", True))
     if case["ctor"] == "repcode":
         return cc.construct_repetition_code_circuit(qec_cycles=case["cycles"], description=desc, initial_state=init)
     if case["ctor"] == "simplified":
